@@ -7,6 +7,8 @@ def base(rng, kind=None, n=None, vals=None):
     vals = vals if vals is not None else [rng.randint(-9, 9) for _ in range(n)]
     if kind in "BR":
         vals = list(dict.fromkeys(vals))
+    if rng.random() < 0.4:
+        kind = kind.lower()             # the same contents, reached through insertions and removals at both ends and in the middle
     return "%s %d%s" % (kind, len(vals), "".join(" %d" % v for v in vals))
 
 def arg(rng, lo=-8, hi=8, pu=0.2):
